@@ -371,7 +371,7 @@ pub fn plan(prop: &str, tier: Tier) -> Option<Plan> {
             // the in-process part of C13: forced backends and alignments must not change results
             p.armed = 0;
             s2::add_backend_agreement(&mut p, q);
-            s3::add_alignment_agreement(&mut p, q);
+            s2::add_alignment_agreement(&mut p, q);
         }
         _ => return None,
     }
